@@ -149,6 +149,27 @@ def scenario(exe, shim, root, seed, stats, tier):
     a.destroy()
     return out or None
 
+def directed_write(exe, shim, root):
+    """the recorded finding C08-write, replayed on every run"""
+    a = e2e.Arr(root, exe, ndisks=2, nparity=1, ncontent=1)
+    rng = e2e.Rng(5)
+    s = sim.Sim(a, rng, weird_names=False)
+    for i in range(3):
+        a.write('d1', 'f%d' % i, rng.bytes(2048), s.tick())
+    lg = os.path.join(vlib.scratch(), 'dwrite.log')
+    r = a.cmd('sync', '--test-io-cache', '1', env={'LD_PRELOAD': shim, 'VERIF_FAIL': 'pwrite:/par/:2:%d' % errno.EIO, 'VERIF_LOG': lg})
+    fails = parse_failed_call(lg)
+    if os.path.exists(lg): os.unlink(lg)
+    out = None
+    if fails and os.path.exists(a.contents[0]):
+        dec = fx.decode(a)
+        pos = fails[0][2] // a.block
+        allblk, bad, nblk = stripe_state(a, dec, pos)
+        if nblk and allblk and not bad:
+            out = '[write-parity] stripe %d hit by the error is recorded as synced and healthy (all blocks BLK, not marked bad); directed: EIO on the 2nd parity pwrite of a first sync with --test-io-cache 1, exit status %d' % (pos, r.rc)
+    a.destroy()
+    return out
+
 def main(tier, seed):
     chk = vlib.Check('C08', 'fault_enumeration', tier, seed)
     chk.assumptions = ['faults are injected at the libc boundary (pread64/pwrite64) by an LD_PRELOAD shim; a run counts only if the shim reports the fault fired',
@@ -165,6 +186,10 @@ def main(tier, seed):
         exe = vlib.build_snapraid(); shim = vlib.build_shim()
     except vlib.BuildError as e:
         chk.violation('build of /repo failed: ' + str(e)[:300], str(e), False, 'build'); chk.finish()
+    dv = directed_write(exe, shim, os.path.join(vlib.scratch(), 'dwrite'))
+    chk.extra['directed_C08_write'] = dv or 'not reproduced'
+    if dv:
+        chk.violation('C08 ' + dv, dv, True, 'known_write')
     n = 48 if tier == 'quick' else 400
     stats = {'runs': 0, 'fired': 0, 'not_fired': 0, 'unmapped': 0, 'classes': {}}
     def job(i):
